@@ -20,6 +20,7 @@ import IblVerif.Model.Venn
 import IblVerif.Model.C20CadzowNp1
 import Mathlib.Tactic.Linarith
 import Mathlib.Tactic.Push
+import Mathlib.Tactic.Ring
 
 namespace IblVerif.Tie.C20
 open IblVerif IblVerif.Tie
